@@ -65,7 +65,7 @@ Definition structure_ok (isd : Z -> bool) (o : dopts) (df ref : frame) : Prop :=
   (forall c, In c (resolve (d_types o) ref) -> has df c = true) /\
   (forall c a r, In c (resolve (d_types o) ref) -> lookup df c = Some a -> lookup ref c = Some r ->
                  types_match isd (d_level o) (eff_dtype a) (eff_dtype r) = true) /\
-  (forall c, In c (resolve (d_extra o) df) -> has ref c = true) /\
+  (forall c, In c (resolve (d_extra o) df) -> has df c = true -> has ref c = true) /\
   (match d_order o with
    | FNone => True
    | _ => filter (fun c => mem_str c (resolve (d_order o) ref) && has ref c) (names df) =
@@ -140,10 +140,12 @@ Proof.
     - intros H c a r Hc Ha Hr. specialize (H c Hc). rewrite Ha, Hr in H. apply negb_false_iff. exact H.
     - intros H c Hc. destruct (lookup df c) as [a|] eqn:Ea; [|reflexivity]. destruct (lookup ref c) as [r|] eqn:Er; [|reflexivity].
       rewrite (H c a r Hc Ea Er). reflexivity. }
-  assert (Hex : extra = [] <-> forall c, In c cx -> has ref c = true).
+  assert (Hex : extra = [] <-> forall c, In c cx -> has df c = true -> has ref c = true).
   { unfold extra. rewrite filter_nil_iff. split.
-    - intros H c Hc. apply negb_false_iff. apply H. apply mem_str_In. rewrite mem_dedup. apply mem_str_In. exact Hc.
-    - intros H c Hc. apply mem_str_In in Hc. rewrite mem_dedup in Hc. apply mem_str_In in Hc. rewrite (H c Hc). reflexivity. }
+    - intros H c Hc Hd. assert (Hm : In c (dedup_strs cx)) by (apply mem_str_In; rewrite mem_dedup; apply mem_str_In; exact Hc).
+      specialize (H c Hm). rewrite Hd in H. cbn [andb] in H. apply negb_false_iff. exact H.
+    - intros H c Hc. apply mem_str_In in Hc. rewrite mem_dedup in Hc. apply mem_str_In in Hc.
+      destruct (has df c) eqn:Ed; [|reflexivity]. rewrite (H c Hc Ed). reflexivity. }
   assert (Hwo : missing = [] -> (wrong_order = false <->
             match d_order o with
             | FNone => True
@@ -215,16 +217,16 @@ Qed.
 
 (* a copy of a frame always passes, for every option setting whose lists name columns of the frame *)
 Theorem copy_passes_proof isd o df :
-  flag_in (d_types o) df -> flag_in (d_data o) df -> flag_in (d_extra o) df ->
+  flag_in (d_types o) df -> flag_in (d_data o) df ->
   exists v, check_dataframe isd o df df = Done v /\ v_same v = true.
 Proof.
-  intros Ht Hd Hx.
+  intros Ht Hd.
   destruct (check_dataframe_spec_proof isd o df df) as [v [Hv Hiff]].
   { split; intros c Hc; [eapply resolve_in; [exact Ht|exact Hc]|eapply resolve_in; [exact Hd|exact Hc]]. }
   exists v. split; [exact Hv|]. apply Hiff. split; [|split; [reflexivity|]].
   - split; [intros c Hc; eapply resolve_in; [exact Ht|exact Hc]|]. split.
     + intros c a r _ Ha Hr. rewrite Ha in Hr. injection Hr as <-. apply types_match_refl.
-    + split; [intros c Hc; eapply resolve_in; [exact Hx|exact Hc]|]. destruct (d_order o); reflexivity || exact I.
+    + split; [intros c Hc Hdf; exact Hdf|]. destruct (d_order o); reflexivity || exact I.
   - intros c Hc. split; [eapply resolve_in; [exact Hd|exact Hc]|].
     intros a r Ha Hr. rewrite Ha in Hr. injection Hr as <-. apply cells_agree_refl.
 Qed.
@@ -235,7 +237,7 @@ Theorem difference_fails_proof isd o df ref :
   ( (exists c, In c (resolve (d_types o) ref) /\ has df c = false) \/                                 (* missing / renamed column *)
     (exists c a r, In c (resolve (d_types o) ref) /\ lookup df c = Some a /\ lookup ref c = Some r /\
                    types_match isd (d_level o) (eff_dtype a) (eff_dtype r) = false) \/                (* retyped column *)
-    (exists c, In c (resolve (d_extra o) df) /\ has ref c = false) \/                                  (* extra column *)
+    (exists c, In c (resolve (d_extra o) df) /\ has df c = true /\ has ref c = false) \/              (* extra column *)
     (d_order o <> FNone /\
      filter (fun c => mem_str c (resolve (d_order o) ref) && has ref c) (names df) <>
      filter (fun c => mem_str c (resolve (d_order o) ref) && has df c) (names ref)) \/                 (* moved column *)
@@ -247,10 +249,10 @@ Proof.
   intros Hsel Hdiff. destruct (check_dataframe_spec_proof isd o df ref Hsel) as [v [Hv Hiff]].
   exists v. split; [exact Hv|]. destruct (v_same v) eqn:E; [|reflexivity]. exfalso.
   destruct (proj1 Hiff eq_refl) as ((Hs1 & Hs2 & Hs3 & Hs4) & Hrows & Hvals).
-  destruct Hdiff as [(c & Hc & Hh)|[(c & a & r & Hc & Ha & Hr & Htm)|[(c & Hc & Hh)|[(Hno & Hord)|[Hr|(c & a & r & Hc & Ha & Hr & Hag)]]]]].
+  destruct Hdiff as [(c & Hc & Hh)|[(c & a & r & Hc & Ha & Hr & Htm)|[(c & Hc & Hd & Hh)|[(Hno & Hord)|[Hr|(c & a & r & Hc & Ha & Hr & Hag)]]]]].
   - rewrite (Hs1 c Hc) in Hh. discriminate.
   - rewrite (Hs2 c a r Hc Ha Hr) in Htm. discriminate.
-  - rewrite (Hs3 c Hc) in Hh. discriminate.
+  - rewrite (Hs3 c Hc Hd) in Hh. discriminate.
   - destruct (d_order o); [apply Hord; exact Hs4|congruence|apply Hord; exact Hs4].
   - contradiction.
   - destruct (Hvals c Hc) as [_ Hall]. apply Hag. apply Hall; assumption.
